@@ -165,7 +165,26 @@ func quoteStr(s string) string {
 	return b.String()
 }
 
+var allKeywords = []string{"令", "为", "以", "其", "或", "且", "之", "的", "设为", "恒为", "新建", "何为", "不为", "如果", "再如", "输出", "如何", "拦截", "导入", "定义", "得到", "输入", "否则", "每当", "遍历", "等于", "大于", "小于", "抛出", "不等于", "不大于", "不小于", "继续循环", "结束循环"}
+
+// CheckName - a generator-side guard: names must not contain keyword text (they would be
+// cut apart by the tokeniser) and must not look like numbers
+func CheckName(n string) {
+	if n == "" {
+		panic("empty identifier")
+	}
+	for _, k := range allKeywords {
+		if strings.Contains(n, k) {
+			panic("generator bug: identifier " + n + " contains keyword " + k)
+		}
+	}
+	if c := n[0]; c >= '0' && c <= '9' {
+		panic("generator bug: identifier " + n + " starts with a digit")
+	}
+}
+
 func (r *renderer) nameTok(n string) Tok {
+	CheckName(n)
 	return Tok{S: n, K: TID}
 }
 
